@@ -546,6 +546,7 @@ func (c *Ctx) freshRef(fr *Frame, elem types.Type, hint string) *Term {
 	alive := fr.cur.get("alive", SArray(SRef, SBool))
 	c.assume(Not(Select(alive, r)))
 	fr.cur.set("alive", Store(alive, r, TTrue))
+	freshRefTerms[r] = true
 	return r
 }
 
